@@ -31,15 +31,26 @@ def main():
     ap.add_argument("--tier", default="quick")
     ap.add_argument("--checks")
     ap.add_argument("--skip-confirm", action="store_true")
+    ap.add_argument("--ported", action="store_true", help="seeded/<name>/patch.diff was ported by hand to the current HEAD: do not overwrite it")
     a = ap.parse_args()
     wt = a.worktree or "/tmp/seed/%s" % a.prop
     name = a.name or a.prop
     out = os.path.join(ROOT, "seeded", name)
     os.makedirs(out, exist_ok=True)
     meta = {"property": a.prop, "name": name, "ran": []}
+    old_meta_path = os.path.join(out, "meta.json")
+    if a.skip_confirm and os.path.exists(old_meta_path):
+        old = json.load(open(old_meta_path))
+        for k_ in ("demo_without_change", "demo_with_change", "demo_output_with_change", "unit_tests_with_change", "confirmed",
+                   "needs_to_manifest", "breaks_property", "origin", "ported"):
+            if old.get(k_) is not None:
+                meta[k_] = old[k_]
+        meta["ran"] = [r for r in old.get("ran", []) if r.startswith("demo ")]
+    if a.ported:
+        meta["ported"] = "the seeder's patch no longer applied after a later fix: commit touched the same lines; re-applied by hand to the current HEAD (same change)"
     so = os.path.join(wt, "seed_out")
     if os.path.isdir(so):
-        for f in ("patch.diff", "demo.py", "notes.txt"):
+        for f in (("demo.py", "notes.txt") if a.ported else ("patch.diff", "demo.py", "notes.txt")):
             if os.path.exists(os.path.join(so, f)):
                 shutil.copy(os.path.join(so, f), os.path.join(out, f))
     patch = os.path.join(out, "patch.diff")
